@@ -727,6 +727,8 @@ kani("models::quantizer_wild_distribution", ["C20"], kind="bounded", bound="two-
      text="a non-monotone caller-supplied distribution may make the model panic, never put a zero inside the non-zero probability type")
 for _m in ("uniform_u8_p8", "uniform_u8_p5"):
     kani(f"models::{_m}::table_full", ["C05"], kind="bounded", bound="full alphabet (range == 2^P), one symbolic row", fns=[M + "uniform.rs::UniformModel::symbol_table"], text="row k of the symbol table of the full alphabet == encoder view of k, for every k")
+kani("models::uniform_u64_p64_new", ["C03", "C20", "C09"], kind="bounded", bound="ranges 2, 3, 7, 1000, 65536 at PRECISION == usize::BITS == 64, every symbol",
+     fns=[M + "uniform.rs::UniformModel::{new,left_cumulative_and_probability}"], text="bins non-empty, consecutive, start at 0, end at 2^64 (wrapped); symbol == range rejected")
 kani("models::quantizer_view_i8_u16_wide", ["C03", "C09"], fns=[M + "quantize.rs::slack", M + "quantize.rs::<LeakilyQuantizedDistribution as EncoderModel>::left_cumulative_and_probability"],
      text="signed symbols narrower than the probability type, support wider than half the symbol type: every in-support symbol gets a non-empty interval, consecutive with its successor, first starts at 0, last ends at 2^P; others impossible (any step CDF)")
 kani("models::quantizer_symbol_table_i8_u16_wide", ["C05"], kind="bounded", bound="one concrete step CDF, all 201 rows", timeout=1800,
